@@ -33,6 +33,8 @@ var c09Alphabet = []c09Op{
 	{"flat/container", `{"b1":{"x":"a"}}`},
 	{"flat/list", `{"c1":[{"k":"a","v":"a"}]}`},
 	{"flat/list", `{"c1":[{"k":"b"}]}`},
+	{"flat/leaf-after-container", `{"b2":"a"}`},
+	{"flat/container-and-leaf", `{"b1":{"x":"b"},"b2":"b"}`},
 	{"flat/shorthand", `{"s":"a"}`},
 	{"outside", `{"o":"a"}`},
 	{"nested/outer-case", `{"w":{"p1":"a"}}`},
@@ -40,6 +42,7 @@ var c09Alphabet = []c09Op{
 	{"nested/inner-case", `{"w":{"j1":"a"}}`},
 	{"nested/inner-case", `{"w":{"j2":"b"}}`},
 	{"nested/inner-case", `{"w":{"j1":"b","j2":"a"}}`},
+	{"nested/leaf-after-inner-choice", `{"w":{"q2":"a"}}`},
 	{"outside", `{"w":{"keep":"a"}}`},
 	{"in-list", `{"e":[{"k":"a","x1":"a"}]}`},
 	{"in-list", `{"e":[{"k":"a","y1":"a"}]}`},
